@@ -101,6 +101,9 @@ func runMutants(opts *Options, p *PropInfo, rep *Report) []mutantResult {
 				if f := seedfix3[p.ID]; f != nil {
 					f(ctx)
 				}
+				if f := seedfix4[p.ID]; f != nil {
+					f(ctx)
+				}
 			}()
 			for _, o := range sub.Obs {
 				if o.Status != Violation {
